@@ -94,9 +94,10 @@ int rstr_find(struct rstr *rs, char *s, int n, int *grps, int flg)
 	if (rs->lbeg)
 		end = s;
 	for (r = beg; r <= end; r++) {
-		if (rs->wbeg && ((r > s && isword(r - 1)) || !isword(r)))
+		int prev = r > s || (flg & RE_PREV);	/* r[-1] is part of the line */
+		if (rs->wbeg && ((prev && isword(r - 1)) || !isword(r)))
 			continue;
-		if (rs->wend && (r + len == s || !isword(r + len - 1) || (r[len] && isword(r + len))))
+		if (rs->wend && ((!prev && !len) || !isword(r + len - 1) || (r[len] && isword(r + len))))
 			continue;
 		if (!match_case(r, rs->str, rs->icase)) {
 			int i;
